@@ -21,8 +21,9 @@ VARIABLES items,       \* set of item ids of this history
           againT,      \* [items -> time from which a second run became due (service worker failed / task re-queued), -1 = none]
           needAgain,   \* items that must have run again before the end (fixed when the stop is requested)
           again,       \* items that were seen running again
-          backoff      \* [items -> restart back-off of a service worker in milliseconds]
-avars == <<items, kind, hasStopFn, st, stopCalled, atStop, fn, offline, lastT, expectPanic, reported, failing, againT, needAgain, again, backoff>>
+          backoff,     \* [items -> restart back-off of a service worker in milliseconds]
+          depSt        \* the module M depends on: "none" (there is none), "want" (has to stop too), "seen" (began stopping)
+avars == <<items, kind, hasStopFn, st, stopCalled, atStop, fn, offline, lastT, expectPanic, reported, failing, againT, needAgain, again, backoff, depSt>>
 \* counter a concrete kind is accounted under
 Counter(k) == CASE k \in {"worker", "startworker", "service"} -> "worker"
                 [] k \in {"hook", "xhook"} -> "hook"
@@ -33,13 +34,14 @@ RestartMs == 150   \* a service worker backs off 10 ms in the harness; a re-queu
 AbsInit == /\ items = {} /\ kind = <<>> /\ hasStopFn = FALSE /\ st = <<>>
            /\ stopCalled = FALSE /\ atStop = {} /\ fn = "none" /\ offline = FALSE /\ lastT = 0
            /\ expectPanic = {} /\ reported = {} /\ failing = {} /\ againT = <<>> /\ needAgain = {} /\ again = {}
-           /\ backoff = <<>>
+           /\ backoff = <<>> /\ depSt = "none"
 
 Max(a, b) == IF a > b THEN a ELSE b
 ToSet(s) == {s[i] : i \in 1..Len(s)}
 
 \* ids: sequence of item ids, kinds: sequence of kinds (same order), pan: ids that will panic, fail: ids that fail
-Reset(ids, kinds, fnFlag, pan, fail, bos) ==
+Reset(ids, kinds, fnFlag, pan, fail, bos, dep) ==
+    /\ depSt' = IF dep THEN "want" ELSE "none"
     /\ items' = ToSet(ids)
     /\ kind' = [i \in ToSet(ids) |-> kinds[CHOOSE k \in 1..Len(ids) : ids[k] = i]]
     /\ hasStopFn' = fnFlag
@@ -59,7 +61,7 @@ WBegin(i, ctxdone, t) ==
     \* tasks and event hooks are not executed at all
     /\ offline => (ctxdone /\ Counter(kind[i]) \notin {"task", "hook"})
     /\ st' = [st EXCEPT ![i] = "running"]
-    /\ UNCHANGED <<items, kind, hasStopFn, stopCalled, atStop, fn, offline, lastT, expectPanic, reported, failing, againT, needAgain, again, backoff>>
+    /\ UNCHANGED <<items, kind, hasStopFn, stopCalled, atStop, fn, offline, lastT, expectPanic, reported, failing, againT, needAgain, again, backoff, depSt>>
 
 WEnd(i, t) ==
     /\ i \in items /\ st[i] = "running"
@@ -67,54 +69,56 @@ WEnd(i, t) ==
     /\ lastT' = Max(lastT, t)
     \* a failed service worker is restarted after its back-off
     /\ againT' = IF kind[i] = "service" /\ i \in failing /\ ~stopCalled THEN [againT EXCEPT ![i] = t] ELSE againT
-    /\ UNCHANGED <<items, kind, hasStopFn, stopCalled, atStop, fn, offline, expectPanic, reported, failing, needAgain, again, backoff>>
+    /\ UNCHANGED <<items, kind, hasStopFn, stopCalled, atStop, fn, offline, expectPanic, reported, failing, needAgain, again, backoff, depSt>>
 
 \* the harness queued a task again after its (failed) run
 Requeued(i, t) ==
     /\ i \in items /\ kind[i] = "task" /\ st[i] = "ended"
     /\ againT' = IF ~stopCalled THEN [againT EXCEPT ![i] = t] ELSE againT
-    /\ UNCHANGED <<items, kind, hasStopFn, st, stopCalled, atStop, fn, offline, lastT, expectPanic, reported, failing, needAgain, again, backoff>>
+    /\ UNCHANGED <<items, kind, hasStopFn, st, stopCalled, atStop, fn, offline, lastT, expectPanic, reported, failing, needAgain, again, backoff, depSt>>
 RanAgain(i) ==
     /\ i \in items /\ st[i] = "ended" /\ kind[i] \in {"service", "task"}
     /\ again' = again \cup {i}
-    /\ UNCHANGED <<items, kind, hasStopFn, st, stopCalled, atStop, fn, offline, lastT, expectPanic, reported, failing, againT, needAgain, backoff>>
+    /\ UNCHANGED <<items, kind, hasStopFn, st, stopCalled, atStop, fn, offline, lastT, expectPanic, reported, failing, againT, needAgain, backoff, depSt>>
 
 StopCall(t) ==
     /\ ~stopCalled /\ stopCalled' = TRUE
     /\ atStop' = {i \in items : st[i] = "running"}
     /\ lastT' = Max(lastT, t)
     /\ needAgain' = {i \in items : againT[i] >= 0 /\ t - againT[i] >= RestartMs + backoff[i]}
-    /\ UNCHANGED <<items, kind, hasStopFn, st, fn, offline, expectPanic, reported, failing, againT, again, backoff>>
+    /\ UNCHANGED <<items, kind, hasStopFn, st, fn, offline, expectPanic, reported, failing, againT, again, backoff, depSt>>
 
 \* the context is cancelled no later than the moment the stop routine is invoked
 FnBegin(ctxdone, t) ==
     /\ stopCalled /\ fn = "none" /\ ctxdone
     /\ fn' = "running"
-    /\ UNCHANGED <<items, kind, hasStopFn, st, stopCalled, atStop, offline, lastT, expectPanic, reported, failing, againT, needAgain, again, backoff>>
+    /\ UNCHANGED <<items, kind, hasStopFn, st, stopCalled, atStop, offline, lastT, expectPanic, reported, failing, againT, needAgain, again, backoff, depSt>>
 FnEnd(t) ==
     /\ fn = "running" /\ fn' = "ended" /\ lastT' = Max(lastT, t)
-    /\ UNCHANGED <<items, kind, hasStopFn, st, stopCalled, atStop, offline, expectPanic, reported, failing, againT, needAgain, again, backoff>>
+    /\ UNCHANGED <<items, kind, hasStopFn, st, stopCalled, atStop, offline, expectPanic, reported, failing, againT, needAgain, again, backoff, depSt>>
 
 \* the driver stopped holding goroutines at yield points at time t (everything runs freely from here)
 Released(t) ==
     /\ lastT' = Max(lastT, t)
-    /\ UNCHANGED <<items, kind, hasStopFn, st, stopCalled, atStop, fn, offline, expectPanic, reported, failing, againT, needAgain, again, backoff>>
+    /\ UNCHANGED <<items, kind, hasStopFn, st, stopCalled, atStop, fn, offline, expectPanic, reported, failing, againT, needAgain, again, backoff, depSt>>
 
 \* observed: module reported offline / a module it depends on began stopping
 Offline(t) ==
     /\ stopCalled /\ WorkDone
     /\ offline' = TRUE
-    /\ UNCHANGED <<items, kind, hasStopFn, st, stopCalled, atStop, fn, lastT, expectPanic, reported, failing, againT, needAgain, again, backoff>>
+    /\ UNCHANGED <<items, kind, hasStopFn, st, stopCalled, atStop, fn, lastT, expectPanic, reported, failing, againT, needAgain, again, backoff, depSt>>
 DepStop(t) ==
     /\ stopCalled /\ WorkDone
-    /\ UNCHANGED avars
+    /\ depSt' = "seen"
+    /\ UNCHANGED <<items, kind, hasStopFn, st, stopCalled, atStop, fn, offline, lastT, expectPanic, reported, failing, againT, needAgain, again, backoff>>
 
 \* Shutdown returned: only after the work is done, and promptly after the last thing it had to wait for
 StopRet(t) ==
     /\ stopCalled /\ WorkDone
+    /\ depSt # "want"            \* the modules it depends on have begun stopping (also when its stop routine failed)
     /\ t - lastT <= PromptMs
     /\ offline' = TRUE
-    /\ UNCHANGED <<items, kind, hasStopFn, st, stopCalled, atStop, fn, lastT, expectPanic, reported, failing, againT, needAgain, again, backoff>>
+    /\ UNCHANGED <<items, kind, hasStopFn, st, stopCalled, atStop, fn, lastT, expectPanic, reported, failing, againT, needAgain, again, backoff, depSt>>
 
 \* ---- C06 observations ----
 \* a blocking run variant returned: a panic error exactly for the panicking items, carrying value and stack
@@ -128,7 +132,7 @@ Report(i, severity, hasStack) ==
     /\ i \in items
     /\ (severity = "panic") => (i \in expectPanic /\ hasStack)
     /\ reported' = IF severity = "panic" THEN reported \cup {i} ELSE reported
-    /\ UNCHANGED <<items, kind, hasStopFn, st, stopCalled, atStop, fn, offline, lastT, expectPanic, failing, againT, needAgain, again, backoff>>
+    /\ UNCHANGED <<items, kind, hasStopFn, st, stopCalled, atStop, fn, offline, lastT, expectPanic, failing, againT, needAgain, again, backoff, depSt>>
 \* final accounting after quiescence: counters back to zero, every panic reported, process alive
 Final(workers, tasks, micro, alive) ==
     /\ alive /\ workers = 0 /\ tasks = 0 /\ micro = 0
